@@ -9,7 +9,7 @@ use crate::chunks::infrastructure::ChunkReader;
 use crate::chunks::particle_emitter::M2ParticleEmitter;
 use crate::chunks::texture_animation::M2TextureAnimation;
 use crate::common::M2Parse;
-use crate::error::Result;
+use crate::error::{M2Error, Result};
 use crate::io_ext::{ReadExt, WriteExt};
 use std::io::{Read, Seek, Write};
 
@@ -17,6 +17,25 @@ use std::io::{Read, Seek, Write};
 fn create_empty_animation_block<T: M2Parse>() -> M2AnimationBlock<T> {
     let track = M2AnimationTrack::default();
     M2AnimationBlock::new(track)
+}
+
+/// Validate an element count read from a chunk against the bytes left in that chunk.
+///
+/// Returns the count as `usize` when `count` elements of at least `min_elem_size`
+/// bytes each can still be read from the current position.
+fn checked_count<R: Read + Seek>(
+    reader: &mut ChunkReader<R>,
+    count: u32,
+    min_elem_size: u32,
+    what: &str,
+) -> Result<usize> {
+    let remaining = reader.remaining()?;
+    if count as u64 * min_elem_size as u64 > remaining as u64 {
+        return Err(M2Error::ParseError(format!(
+            "{what}: {count} entries of {min_elem_size} bytes exceed the {remaining} bytes left in the chunk"
+        )));
+    }
+    Ok(count as usize)
 }
 
 /// Extended particle data for EXPT chunks (version 1)
@@ -54,7 +73,8 @@ impl ExtendedParticleData {
                 _ => {
                     // Skip unknown types for forward compatibility
                     let skip_size = reader.read_u32_le()?;
-                    let mut skip_buffer = vec![0u8; skip_size as usize];
+                    let skip_size = checked_count(reader, skip_size, 1, "EXPT unknown entry")?;
+                    let mut skip_buffer = vec![0u8; skip_size];
                     reader.read_exact(&mut skip_buffer)?;
                 }
             }
@@ -423,7 +443,13 @@ impl ParentAnimationData {
     /// Parse PADC chunk
     pub fn parse<R: Read + std::io::Seek>(reader: &mut ChunkReader<R>) -> Result<Self> {
         let weight_count = reader.read_u32_le()?;
-        let mut texture_weights = Vec::with_capacity(weight_count as usize);
+        // u16 index + f32 factor + u8 operation
+        let mut texture_weights = Vec::with_capacity(checked_count(
+            reader,
+            weight_count,
+            7,
+            "PADC texture weights",
+        )?);
 
         for _ in 0..weight_count {
             let weight = TextureWeight {
@@ -435,7 +461,9 @@ impl ParentAnimationData {
         }
 
         let mode_count = reader.read_u32_le()?;
-        let mut blending_modes = Vec::with_capacity(mode_count as usize);
+        // 2 x u8 blend + f32 threshold
+        let mut blending_modes =
+            Vec::with_capacity(checked_count(reader, mode_count, 6, "PADC blending modes")?);
 
         for _ in 0..mode_count {
             let mode = BlendMode {
@@ -646,14 +674,20 @@ impl EdgeFadeData {
     /// Parse EDGF chunk
     pub fn parse<R: Read + std::io::Seek>(reader: &mut ChunkReader<R>) -> Result<Self> {
         let distance_count = reader.read_u32_le()?;
-        let mut fade_distances = Vec::with_capacity(distance_count as usize);
+        let mut fade_distances = Vec::with_capacity(checked_count(
+            reader,
+            distance_count,
+            4,
+            "EDGF fade distances",
+        )?);
 
         for _ in 0..distance_count {
             fade_distances.push(reader.read_f32_le()?);
         }
 
         let factor_count = reader.read_u32_le()?;
-        let mut fade_factors = Vec::with_capacity(factor_count as usize);
+        let mut fade_factors =
+            Vec::with_capacity(checked_count(reader, factor_count, 4, "EDGF fade factors")?);
 
         for _ in 0..factor_count {
             fade_factors.push(reader.read_f32_le()?);
@@ -841,7 +875,10 @@ impl TextureAnimationChunk {
     /// Parse TXAC chunk
     pub fn parse<R: Read + std::io::Seek>(reader: &mut ChunkReader<R>) -> Result<Self> {
         let count = reader.read_u32_le()?;
-        let mut texture_animations = Vec::with_capacity(count as usize);
+        // Fixed part of an entry: type + padding (4 bytes) and the extended properties
+        // (24 bytes); the animation blocks in between are not counted
+        let mut texture_animations =
+            Vec::with_capacity(checked_count(reader, count, 28, "TXAC texture animations")?);
 
         for _ in 0..count {
             let extended_anim = ExtendedTextureAnimation::parse(reader)?;
@@ -1159,7 +1196,12 @@ impl DpivChunk {
 
         // Read vertex positions
         reader.seek_to_position(chunk_start + vertex_pos_offset as u64)?;
-        let mut vertex_positions = Vec::with_capacity(vertex_pos_count as usize);
+        let mut vertex_positions = Vec::with_capacity(checked_count(
+            reader,
+            vertex_pos_count,
+            12,
+            "DPIV vertex positions",
+        )?);
         for _ in 0..vertex_pos_count {
             let pos = [
                 reader.read_f32_le()?,
@@ -1171,7 +1213,12 @@ impl DpivChunk {
 
         // Read face normals
         reader.seek_to_position(chunk_start + face_norm_offset as u64)?;
-        let mut face_normals = Vec::with_capacity(face_norm_count as usize);
+        let mut face_normals = Vec::with_capacity(checked_count(
+            reader,
+            face_norm_count,
+            12,
+            "DPIV face normals",
+        )?);
         for _ in 0..face_norm_count {
             let normal = [
                 reader.read_f32_le()?,
@@ -1183,14 +1230,15 @@ impl DpivChunk {
 
         // Read indices
         reader.seek_to_position(chunk_start + index_offset as u64)?;
-        let mut indices = Vec::with_capacity(index_count as usize);
+        let mut indices =
+            Vec::with_capacity(checked_count(reader, index_count, 2, "DPIV indices")?);
         for _ in 0..index_count {
             indices.push(reader.read_u16_le()?);
         }
 
         // Read flags
         reader.seek_to_position(chunk_start + flags_offset as u64)?;
-        let mut flags = Vec::with_capacity(flags_count as usize);
+        let mut flags = Vec::with_capacity(checked_count(reader, flags_count, 2, "DPIV flags")?);
         for _ in 0..flags_count {
             flags.push(reader.read_u16_le()?);
         }
@@ -1338,7 +1386,7 @@ impl ParentEventData {
             let data_size = reader.read_u32_le()?;
             let timestamp = reader.read_u32_le()?;
 
-            let mut data = vec![0u8; data_size as usize];
+            let mut data = vec![0u8; checked_count(reader, data_size, 1, "PEDC event data")?];
             reader.read_exact(&mut data)?;
 
             event_entries.push(ParentEventEntry {
@@ -1401,7 +1449,8 @@ impl CollisionMeshData {
         let face_count = reader.read_u32_le()?;
         let material_count = reader.read_u32_le()?;
 
-        let mut vertices = Vec::with_capacity(vertex_count as usize);
+        let mut vertices =
+            Vec::with_capacity(checked_count(reader, vertex_count, 12, "PCOL vertices")?);
         for _ in 0..vertex_count {
             vertices.push([
                 reader.read_f32_le()?,
@@ -1410,7 +1459,7 @@ impl CollisionMeshData {
             ]);
         }
 
-        let mut faces = Vec::with_capacity(face_count as usize);
+        let mut faces = Vec::with_capacity(checked_count(reader, face_count, 8, "PCOL faces")?);
         for _ in 0..face_count {
             faces.push(CollisionFace {
                 indices: [
@@ -1422,7 +1471,8 @@ impl CollisionMeshData {
             });
         }
 
-        let mut materials = Vec::with_capacity(material_count as usize);
+        let mut materials =
+            Vec::with_capacity(checked_count(reader, material_count, 12, "PCOL materials")?);
         for _ in 0..material_count {
             materials.push(CollisionMaterial {
                 flags: reader.read_u32_le()?,
